@@ -190,6 +190,10 @@ class Project(object):
         if not package.startswith('.'):
             return package
 
+        if not filename or filename == '<string>':
+            # unsaved buffer: there is no package to be relative to
+            raise ImportError('Relative import without a file name: {}'.format(package))
+
         root = filename
         for _ in range(len(package) - len(package.lstrip('.'))):
             root = os.path.dirname(root)
@@ -199,12 +203,12 @@ class Project(object):
             parts = self._norm_cache[key]
         except KeyError:
             parts = []
-            while True:
-                if os.path.exists(os.path.join(root, '__init__.py')):
-                    parts.insert(0, os.path.basename(root))
-                    root = os.path.dirname(root)
-                else:
+            # a relative file name ends at '' and '/' is its own parent
+            while root and os.path.exists(os.path.join(root, '__init__.py')):
+                parts.insert(0, os.path.basename(root))
+                if root == os.path.dirname(root):
                     break
+                root = os.path.dirname(root)
 
             if not parts:
                 raise ImportError('Not a package: {} ({})'.format(filename, package))
